@@ -171,3 +171,12 @@ Theorem C09_site_guards :
                     end) accounted.
 Proof. exact sites_guarded. Qed.
 Print Assumptions C09_site_guards.
+
+(* completeness side of the site inventory: EVERY top-level impl / trait / macro / fn item of the Thrift protocol files
+   (regenerated: Generated/ThriftFns.v, with the fns each contains) is either scanned by the inventory or classified in
+   Thrift/FnsKnown.v (writer side / unchecked codec / reads no input); a new helper fn, impl block or macro breaks this *)
+From PV Require Import Generated.ThriftFns Thrift.FnsKnown Proofs.FnsP.
+Theorem C09_fn_inventory :
+  map (fun q => let '(f, h, fns, c) := q in (f, h, fns, is_scanned c)) known_items = thrift_items.
+Proof. exact fns_accounted. Qed.
+Print Assumptions C09_fn_inventory.
